@@ -183,6 +183,10 @@ func (cx *Ctx) implementers(iface *types.Interface, recvT types.Type, method *ty
 		if !types.Implements(t, iface) {
 			continue
 		}
+		// *T whose T also implements: the value method is reached either way
+		if p, ok := t.(*types.Pointer); ok && types.Implements(p.Elem(), iface) {
+			continue
+		}
 		ms := cx.P.SSA.MethodSets.MethodSet(t)
 		sel := ms.Lookup(method.Pkg(), method.Name())
 		if sel == nil {
